@@ -552,6 +552,9 @@ impl<A: HApi> Sut for HSut<A> {
         }
         c
     }
+    fn record_bytes(&self) -> Option<usize> {
+        Some(A::data_len(1) - A::data_len(0))
+    }
     fn nontrivial(&self, state: &[u8]) -> bool {
         let d = hdecode::<A>(state);
         match d.members() {
